@@ -11,7 +11,7 @@
 // throwing ones (`void read(tl_throwable_istream&)`); when both give the same observation it is printed once, otherwise
 // both are printed behind `DIFFERS`. `oklatched` marks a non-throwing read that returned true although the stream has
 // an error latched. Lines are processed in a forked child with an address-space limit and a per-line alarm, so that a
-// crash, an uncaught exception in a noexcept function, a runaway allocation (address space is limited to 192 MiB) or a
+// crash, an uncaught exception in a noexcept function, a runaway allocation (address space is limited to 64 MiB above the driver's own) or a
 // non-terminating loop (10 s of CPU time) costs one line (`crash` / `timeout`).
 #include <sys/resource.h>
 #include <sys/time.h>
@@ -24,6 +24,7 @@
 #include <cstring>
 #include <iostream>
 #include <sstream>
+#include <stdexcept>
 #include <string>
 #include <vector>
 
@@ -74,7 +75,7 @@ enum Mode { BARE, BOXED, RESULT };
 // the wall-clock alarm is only a backstop against a blocked process
 static const unsigned LINE_CPU_S = 10;
 static const unsigned LINE_WALL_S = 300;
-static const unsigned long AS_LIMIT = 192ul << 20;
+static const unsigned long AS_HEADROOM = 64ul << 20;  // on top of what the process already maps
 
 // non-throwing streams
 static std::string run_nt(const ::tlgen::meta::tl_item &item, Mode mode, const std::string &args, const std::string &data) {
@@ -227,6 +228,11 @@ int main() {
         lines.push_back(l);
     }
     ::tlgen::factory::set_all_factories();  // once, in the supervisor; children inherit it through fork
+    // warm the unwinder's tables here as well: otherwise every forked child pays the first-throw cost again
+    try {
+        throw std::runtime_error("warm");
+    } catch (const std::exception &) {
+    }
     size_t idx = 0;
     while (idx < lines.size()) {
         int fds[2];
@@ -237,7 +243,12 @@ int main() {
         if (pid == 0) {
             close(fds[0]);
             struct rlimit rl;
-            rl.rlim_cur = rl.rlim_max = (rlim_t)AS_LIMIT;
+            unsigned long vsz_pages = 0;
+            if (FILE *sf = fopen("/proc/self/statm", "r")) {
+                if (fscanf(sf, "%lu", &vsz_pages) != 1) vsz_pages = 0;
+                fclose(sf);
+            }
+            rl.rlim_cur = rl.rlim_max = (rlim_t)(vsz_pages * (unsigned long)sysconf(_SC_PAGESIZE) + AS_HEADROOM);
             setrlimit(RLIMIT_AS, &rl);
             rl.rlim_cur = rl.rlim_max = 0;
             setrlimit(RLIMIT_CORE, &rl);
